@@ -1,6 +1,7 @@
 /-
   C05 — Variable-length tag contents have exactly the extent the tag size implies.
 -/
+import Mb2.Props.FnsTblTags
 import Mb2.Props.FnsGetters
 import Mb2.Props.FnsElfIter
 import Mb2.Props.FnsFb
